@@ -47,7 +47,8 @@ func Scan(data string, loc SourceLoc, delims []string) (tokens []Token) {
 		source := data[ts:te]
 		blockEnd := ""
 		switch {
-		case data[ts:ts+len(delims[0])] == delims[0]:
+		case m[2] >= 0:
+			// the object alternative of the matcher captured the expression
 			if source[len(delims[0])] == '-' {
 				tokens = append(tokens, Token{
 					Type: TrimLeftTokenType,
@@ -64,7 +65,7 @@ func Scan(data string, loc SourceLoc, delims []string) (tokens []Token) {
 					Type: TrimRightTokenType,
 				})
 			}
-		case data[ts:ts+len(delims[2])] == delims[2]:
+		default:
 			if source[len(delims[2])] == '-' {
 				tokens = append(tokens, Token{
 					Type: TrimLeftTokenType,
@@ -127,12 +128,11 @@ func formTokenMatcher(delims []string) *regexp.Regexp {
 	// For example, if delims is default the exclusion expression is "[^%]|%[^}]".
 	// If tagRight is "TAG!RIGHT" then expression is
 	// [^T]|T[^A]|TA[^G]|TAG[^!]|TAG![^R]|TAG!R[^I]|TAG!RI[^G]|TAG!RIG[^H]|TAG!RIGH[^T]
-	exclusion := make([]string, 0, len(delims[3]))
-	for idx, val := range delims[3] {
-		exclusion = append(exclusion, "[^"+string(val)+"]")
-		if idx > 0 {
-			exclusion[idx] = delims[3][0:idx] + exclusion[idx]
-		}
+	// The characters of the delimiter are taken literally, whatever they mean in a regular expression.
+	runes := []rune(delims[3])
+	exclusion := make([]string, 0, len(runes))
+	for idx, val := range runes {
+		exclusion = append(exclusion, regexp.QuoteMeta(string(runes[:idx]))+fmt.Sprintf(`[^\x{%x}]`, val))
 	}
 
 	tokenMatcher := regexp.MustCompile(
